@@ -42,6 +42,7 @@ static u64 bucket(u64 max_node, u64 s, int mode = 0)
         arr[2] = fresh(8); *arr[2] = std::move(*fresh(max_node));
         cur_max = max_node;
     }
+    if (s == ~u64(0)) return arr[mode]->max_node_size();      // the maximum the array reports (it travels with a move)
     return arr[mode]->get(s).node_size();
 }
 
@@ -127,6 +128,16 @@ int main(int argc, char** argv)
             else r = a[0] == 0 ? bucket<free_memory_list, log2_access_policy>(a[2], a[3], mode)
                      : a[0] == 1 ? bucket<ordered_free_memory_list, log2_access_policy>(a[2], a[3], mode)
                                  : bucket<small_free_memory_list, log2_access_policy>(a[2], a[3], mode);
+        }
+        else if (fn == "bucket_max") {
+            // a[0] list type, a[1] policy, a[2] max node size, a[3] mode: the maximum node size the array reports
+            int mode = int(a[3]);
+            if (a[1] == 0) r = a[0] == 0 ? bucket<free_memory_list, identity_access_policy>(a[2], ~u64(0), mode)
+                             : a[0] == 1 ? bucket<ordered_free_memory_list, identity_access_policy>(a[2], ~u64(0), mode)
+                                         : bucket<small_free_memory_list, identity_access_policy>(a[2], ~u64(0), mode);
+            else r = a[0] == 0 ? bucket<free_memory_list, log2_access_policy>(a[2], ~u64(0), mode)
+                     : a[0] == 1 ? bucket<ordered_free_memory_list, log2_access_policy>(a[2], ~u64(0), mode)
+                                 : bucket<small_free_memory_list, log2_access_policy>(a[2], ~u64(0), mode);
         }
         else if (fn == "bucket_static") r = bucket_static(a[0], a[1], a[3]);      // a[2] is 64
         else { std::printf("? %s\n", fn.c_str()); continue; }
